@@ -215,6 +215,8 @@ type c17World struct {
 	candidacies  map[int]map[int]bool   // term -> nodes that started an election in that term
 	strike       []int8                 // model of the two-strike rehash rule, per node: 0 no strike, 1 one strike, 2 unknown
 	busySince    []int64                // virtual time at which the node's loop entered electLeader / sendHealthChecks
+	omitQueued   []bool                 // a health check whose node list omits the receiver is queued at this busy node
+	action       string                 // what the harness is doing right now (part of a panic's signature)
 	race         string                 // set when a busy loop would return to a select with two ready inputs
 	hcFail       [][]int                // leader -> peer -> consecutive failed health checks seen by the transport
 	stat         map[string]int
@@ -356,7 +358,7 @@ func (w *c17World) onRequest(c *c17Codec, method string, seq uint64, body any) {
 			if h.Leader != c17Names[a] {
 				w.fail("health-wrong-leader-name", "node %s sent a health check naming %q as leader", c17Names[a], h.Leader)
 			}
-			w.tr("%s starts health round term %d nodes %v parts %v", c17Names[a], h.Term, h.Nodes, r.parts)
+			w.tr("%s starts health round term %d (%d nodes listed) to peers %v", c17Names[a], h.Term, len(h.Nodes), r.parts)
 			w.roundAdvance(a)
 		} else if h.Term != r.payload.Term || h.Signature != r.payload.Signature || strings.Join(h.Nodes, "\x00") != strings.Join(r.payload.Nodes, "\x00") {
 			w.desync = "health payload changed within one round"
@@ -526,11 +528,22 @@ func c17NodeLoop4(w *c17World) { w.runNode(4) }
 func (w *c17World) runNode(i int) {
 	defer func() {
 		if r := recover(); r != nil {
-			buf := make([]byte, 4096)
+			buf := make([]byte, 1<<15)
 			buf = buf[:runtime.Stack(buf, false)]
+			kind := fmt.Sprint(r)
+			if strings.Contains(kind, "nil pointer dereference") {
+				kind = "nil-pointer-dereference"
+			} else if len(kind) > 40 {
+				kind = kind[:40]
+			}
 			w.mu.Lock()
 			w.panicked = true
-			w.fail("run-loop-panic:"+c17PanicFrame(string(buf)), "the failover loop of node %s panicked in Cluster.%s called from Cluster.run: %v", c17Names[i], c17PanicFrame(string(buf)), r)
+			// the frames are best effort (inlining, truncation): they follow the marker and are not part of the digest
+			act := w.action
+			if w.omitQueued[i] {
+				act = "on-health-check-whose-node-list-omits-the-receiver"
+			}
+			w.fail("run-loop-panic:"+kind+":"+act, "the failover loop of node %s panicked: %v"+c17FramesMarker+"%s", c17Names[i], r, c17PanicFrames(string(buf)))
 			w.exited[i] = true
 			w.mu.Unlock()
 			return
@@ -565,17 +578,7 @@ func c17PanicFrames(st string) string {
 	return strings.Join(out, " <- ")
 }
 
-// c17PanicFrame names the function Cluster.run had called when the panic happened (deeper frames may or may not be
-// inlined, so they are not part of the signature).
-func c17PanicFrame(st string) string {
-	fr := strings.Split(c17PanicFrames(st), " <- ")
-	for i, f := range fr {
-		if f == "(*Cluster).run" && i > 0 {
-			return strings.TrimPrefix(fr[i-1], "(*Cluster).")
-		}
-	}
-	return "unknown"
-}
+const c17FramesMarker = " | frames: "
 
 // refreshBusy finds out, for nodes that started an election, whether their loop is still inside electLeader.
 func (w *c17World) refreshBusy() {
@@ -735,6 +738,13 @@ func (w *c17World) deliver(it *c17Item) bool {
 			w.stat["health-check-queued-at-busy-node"]++
 			w.strike[it.callee] = 2
 		}
+		if it.health {
+			omits := true
+			for _, nm := range it.hreq.Nodes {
+				omits = omits && nm != c17Names[it.callee]
+			}
+			w.omitQueued[it.callee] = omits && queued
+		}
 		w.remove(it)
 		if len(w.pending) > 0 && c17ItemLess(w.pending[0], it) {
 			w.stat["reordered"]++
@@ -742,6 +752,17 @@ func (w *c17World) deliver(it *c17Item) bool {
 		b := it.callee
 		pre := w.snap(b)
 		w.tr("deliver %s", it)
+		w.action = "on-vote-request"
+		if it.health {
+			w.action = "on-health-check"
+			omits := true
+			for _, nm := range it.hreq.Nodes {
+				omits = omits && nm != c17Names[b]
+			}
+			if omits {
+				w.action = "on-health-check-whose-node-list-omits-the-receiver"
+			}
+		}
 		w.mu.Unlock()
 		if it.health {
 			h := it.hreq
@@ -779,6 +800,7 @@ func (w *c17World) deliver(it *c17Item) bool {
 		return true
 	}
 	// a reply
+	w.action = "on-reply"
 	w.remove(it)
 	if len(w.pending) > 0 && c17ItemLess(w.pending[0], it) {
 		w.stat["reordered"]++
@@ -838,6 +860,7 @@ func (w *c17World) dropLocked(it *c17Item, listed bool) {
 
 func (w *c17World) drop(it *c17Item) {
 	w.mu.Lock()
+	w.action = "on-message-loss"
 	w.stat["dropped"]++
 	w.dropLocked(it, true)
 	w.mu.Unlock()
@@ -849,6 +872,7 @@ func (w *c17World) setCut(a, b int, v bool) {
 		return
 	}
 	w.mu.Lock()
+	w.action = "on-partition-change"
 	if w.cut[a][b] != v {
 		w.cut[a][b], w.cut[b][a] = v, v
 		if v {
@@ -894,6 +918,9 @@ func (w *c17World) step(ev c17Ev) {
 		if d > 2000 {
 			d = 2000
 		}
+		w.mu.Lock()
+		w.action = "on-clock-advance"
+		w.mu.Unlock()
 		time.Sleep(time.Duration(d) * time.Millisecond)
 		w.settle()
 	case "dlv", "drop":
@@ -993,6 +1020,8 @@ func (w *c17World) judgeHealth(it *c17Item, pre c17Snap) {
 	}
 	b := it.callee
 	h := it.hreq
+	sorted := append([]string(nil), h.Nodes...) // the leader builds the list in map order: sort it for messages
+	sort.Strings(sorted)
 	post := w.snap(b)
 	w.healthSeen++
 	if h.Term < pre.term {
@@ -1034,12 +1063,12 @@ func (w *c17World) judgeHealth(it *c17Item, pre c17Snap) {
 	w.stat["ring-mismatch-second"]++
 	if want := c17SigOf(h.Nodes); post.sig != want {
 		w.fail("health-check-node-list-not-adopted", "node %s accepted a second health check with another ring (leader %s, term %d, nodes %v) but its ring %s is not the ring of that node list (%s)",
-			c17Names[b], h.Leader, h.Term, h.Nodes, post.sig, want)
+			c17Names[b], h.Leader, h.Term, sorted, post.sig, want)
 		return
 	}
 	if post.sig != h.Signature {
 		w.fail("health-check-ring-signature-not-adopted", "node %s accepted a second health check with another ring from leader %s (term %d): the check carries node list %v and ring signature %s, "+
-			"the node now has the ring of that list, %s, which is not the leader's ring", c17Names[b], h.Leader, h.Term, h.Nodes, h.Signature, post.sig)
+			"the node now has the ring of that list, %s, which is not the leader's ring", c17Names[b], h.Leader, h.Term, sorted, h.Signature, post.sig)
 		return
 	}
 	w.rehashAdopts++
@@ -1157,7 +1186,7 @@ func c17SimWorld(cs *c17SimCase, wantTrace bool) (res c17SimResult) {
 	}
 	w.round = make([]*c17Round, n)
 	w.started, w.exited, w.maybeBusy, w.inElect = make([]bool, n), make([]bool, n), make([]bool, n), make([]bool, n)
-	w.strike, w.busySince = make([]int8, n), make([]int64, n)
+	w.strike, w.busySince, w.omitQueued = make([]int8, n), make([]int64, n), make([]bool, n)
 	w.lastTerm = make([]int, n)
 	for i := 0; i < n; i++ {
 		w.votes = append(w.votes, map[int]int{})
@@ -1307,7 +1336,11 @@ func c17SimDigest(res c17SimResult) string {
 	}
 	sb.WriteString(res.final)
 	if res.viol != nil {
-		sb.WriteString(res.viol.Sig + "|" + res.viol.Msg)
+		msg := res.viol.Msg
+		if k := strings.Index(msg, c17FramesMarker); k >= 0 {
+			msg = msg[:k]
+		}
+		sb.WriteString(res.viol.Sig + "|" + msg)
 	}
 	return sb.String()
 }
